@@ -100,7 +100,18 @@ class World:
     def attrs_path(self):
         return os.path.join(self.home, '.config', 'git', 'attributes') if self.scope == 'global' else os.path.join(self.repo, '.gitattributes')
 
-    def set_initial(self, cfg, attrs):
+    def other_args(self):
+        return ['--local'] if self.scope == 'global' else ['--global']
+
+    def read_other(self):
+        r = self.git('config', *self.other_args(), '--list', '-z', check=False)
+        return sorted(x for x in r.stdout.decode('utf8', 'replace').split('\0') if x)
+
+    def set_initial(self, cfg, attrs, other=()):
+        if other and self.scope != 'global':
+            open(os.path.join(self.home, '.gitconfig'), 'a').close()
+        for k, v in other:
+            self.git('config', *self.other_args(), k, v)
         for k, v in cfg:
             self.git('config', *self.scope_args(), k, v)
         if attrs is not None:
@@ -192,31 +203,33 @@ def gen_initial(rng):
     return cfg, attrs
 
 
-def check_sequence(ctx, drv_reqs, scope, cfg0, attrs0, cmds):
+def check_sequence(ctx, drv_reqs, scope, cfg0, attrs0, cmds, other=()):
     """run on real git, return observation list; the model request is appended to drv_reqs"""
     w = World(scope)
     obs = []
     try:
-        w.set_initial(cfg0, attrs0)
-        start = (w.read_cfg(), w.read_attrs())
+        w.set_initial(cfg0, attrs0, other)
+        start = (w.read_cfg(), w.read_attrs(), w.read_other())
         for c in cmds:
             rc, err = w.run_cmd(c)
-            obs.append({'rc': rc, 'err': err if rc else '', 'cfg': w.read_cfg(), 'attrs': w.read_attrs(), 'check_attr': w.check_attr()})
+            obs.append({'rc': rc, 'err': err if rc else '', 'cfg': w.read_cfg(), 'attrs': w.read_attrs(), 'check_attr': w.check_attr(), 'other': w.read_other()})
     finally:
         w.close()
     drv_reqs.append({'cmd': 'gitcfg', 'cfg': [[k, v[0]] for k, v in start[0].items()], 'attrs': chunks_of(start[1]), 'cmds': cmds})
     return start, obs
 
 
-def evaluate(ctx, scope, cfg0, attrs0, cmds, start, obs, model):
-    data = {'scope': scope, 'cfg0': cfg0, 'attrs0': attrs0, 'cmds': cmds}
-    prev_cfg, prev_attrs = start
+def evaluate(ctx, scope, cfg0, attrs0, cmds, start, obs, model, other=()):
+    data = {'scope': scope, 'cfg0': cfg0, 'attrs0': attrs0, 'cmds': cmds, 'other': [list(x) for x in other]}
+    prev_cfg, prev_attrs, other0 = start
     mism = []
     for i, (c, o, m) in enumerate(zip(cmds, obs, model)):
         d = dict(data, index=i)
         ctx.count('cmd:' + (c if isinstance(c, str) else '%s%s' % (c[0], '+default' if c[1] else '')))
         if o['rc'] != 0:
             ctx.violation('command %s exited %d: %s' % (c, o['rc'], o['err'][-200:]), dict(d, kind='cmd-fails'))
+        if o.get('other', other0) != other0:
+            ctx.violation('%s (scope %s) changed the configuration of the other scope: %r -> %r' % (c, scope or 'repository', other0, o['other']), dict(d, kind='other-scope'))
         # --- the property on the implementation ---
         for k in set(prev_cfg) | set(o['cfg']):
             if k not in OWN and not k.startswith(('diff.jupyternotebook.', 'merge.jupyternotebook.')) and prev_cfg.get(k) != o['cfg'].get(k):
@@ -292,24 +305,33 @@ def run(ctx):
             cmds.append(c)
             if is_enable(c) and rng.random() < 0.4:
                 cmds.append(c)          # idempotence probe
-        jobs.append((scope, cfg0, attrs0, cmds[:maxlen + 1]))
+        other = []
+        if rng.random() < 0.45:
+            # the other scope (global for a repository command, repository for a --global one) holds settings of its own
+            other = [(k, v) for k, v in gen_initial(rng)[0] if k in ('merge.tool', 'diff.guitool', 'difftool.prompt', 'mergetool.prompt')]
+            if rng.random() < 0.5:
+                other = [(k, 'nbdime' if k in ('merge.tool', 'diff.guitool') else v) for k, v in other] or [('merge.tool', 'nbdime'), ('diff.guitool', 'nbdime')]
+        jobs.append((scope, cfg0, attrs0, cmds[:maxlen + 1], other))
     reqs = [None] * len(jobs)
 
     def work(ix):
-        scope, cfg0, attrs0, cmds = jobs[ix]
+        scope, cfg0, attrs0, cmds = jobs[ix][:4]
         r = []
-        res = check_sequence(ctx, r, scope, cfg0, attrs0, cmds)
+        res = check_sequence(ctx, r, scope, cfg0, attrs0, cmds, jobs[ix][4] if len(jobs[ix]) > 4 else ())
         reqs[ix] = r[0]
         return res
     with concurrent.futures.ThreadPoolExecutor(max_workers=14) as ex:
         results = list(ex.map(work, range(len(jobs))))
     models = vlib.Driver().run(reqs)
     mism = []
-    for (scope, cfg0, attrs0, cmds), (start, obs), m in zip(jobs, results, models):
-        ctx.case(json.dumps([scope, cfg0, attrs0, cmds]), len(cmds) >= 2)
+    for job, (start, obs), m in zip(jobs, results, models):
+        scope, cfg0, attrs0, cmds = job[:4]
+        other = job[4] if len(job) > 4 else ()
+        ctx.case(json.dumps([scope, cfg0, attrs0, cmds, other]), len(cmds) >= 2)
         ctx.count('scope:%s' % scope)
+        ctx.count('other-scope-populated' if other else 'other-scope-empty')
         ctx.sample({'scope': scope, 'initial_cfg': cfg0, 'attrs': attrs0, 'cmds': cmds}, limit=2)
-        mism += evaluate(ctx, scope, cfg0, attrs0, cmds, start, obs, m['ok'])
+        mism += evaluate(ctx, scope, cfg0, attrs0, cmds, start, obs, m['ok'], other)
     ctx.cov['correspondence_mismatches'] = len(mism)
     if table_note and not ctx.violations:
         ctx.violation('generated obligation (extracted git-config writes = model write tables) no longer checks: ' + table_note,
@@ -324,9 +346,10 @@ def replay(path):
     ctx = vlib.Ctx('C18', 'quick', 0)
     if 'cmds' in data:
         r = []
-        start, obs = check_sequence(ctx, r, data['scope'], [tuple(x) for x in data['cfg0']], data['attrs0'], data['cmds'])
+        other = [tuple(x) for x in data.get('other', [])]
+        start, obs = check_sequence(ctx, r, data['scope'], [tuple(x) for x in data['cfg0']], data['attrs0'], data['cmds'], other)
         m = vlib.Driver().run(r)[0]
-        evaluate(ctx, data['scope'], data['cfg0'], data['attrs0'], data['cmds'], start, obs, m['ok'])
+        evaluate(ctx, data['scope'], data['cfg0'], data['attrs0'], data['cmds'], start, obs, m['ok'], other)
     for what, p, found in ctx.violations:
         print('REPRODUCED:', what[:300])
     return 1 if ctx.violations else 0
